@@ -271,9 +271,12 @@ func (fr *Frame) callByContract(callee *ssa.Function, fc *FuncContract, args []V
 		}
 	}
 	// havoc the modifies set
+	fr.havocLog = nil
 	for _, mi := range fc.Modifies {
 		fr.havocMod(mi, env, st)
 	}
+	hlog := fr.havocLog
+	fr.havocLog = nil
 	res := fr.freshResults(callee)
 	post := fr.calleeEnv(callee, args, st, pre)
 	post.results = res
@@ -286,18 +289,75 @@ func (fr *Frame) callByContract(callee *ssa.Function, fc *FuncContract, args []V
 		}
 		c.tick(st, delta)
 	}
+	eqs := map[string]string{}
 	for _, en := range fc.Ensures {
 		if strings.Contains(en.Text, "local(") {
 			continue // about the callee's own locals: proved there, not visible to callers
 		}
 		g := fr.evalBool(en.E, post, en)
 		c.assume(sImp(reach, g))
+		collectEqs(g, eqs)
 	}
 	for _, en := range fc.Defines {
 		g := fr.evalBool(en.E, post, en)
 		c.assume(sImp(reach, g))
 	}
+	// where a postcondition pins a havocked location to a term (x' == e), store e itself: later
+	// reads then resolve syntactically instead of through an equality
+	if len(eqs) > 0 && len(hlog) > 0 {
+		rebuilt := map[string]string{}
+		changed := map[string]bool{}
+		for _, h := range hlog {
+			base, ok := rebuilt[h.key]
+			if !ok {
+				base = h.base
+			}
+			val := h.fresh
+			if t, ok := eqs[h.fresh]; ok && !strings.Contains(t, h.fresh) && reach == "true" {
+				val = t
+				changed[h.key] = true
+			} else if t, ok := eqs[h.fresh]; ok && !strings.Contains(t, h.fresh) {
+				val = t
+				changed[h.key] = true
+			}
+			rebuilt[h.key] = sStore(base, h.ref, val)
+			rebuilt[h.key] = c.define("Heq", "(Array Int "+c.heapSort[h.key]+")", rebuilt[h.key])
+		}
+		for k, v := range rebuilt {
+			if changed[k] {
+				st.heap[k] = v
+			}
+		}
+	}
 	return res
+}
+
+type havocRec struct{ key, ref, fresh, base string }
+
+// collectEqs gathers top-level conjuncts of the form (= atom term) / (= term atom).
+func collectEqs(g string, out map[string]string) {
+	for _, cj := range splitGoal(g, 0) {
+		if strings.HasPrefix(cj, "(=> ") {
+			continue
+		}
+		if strings.HasPrefix(cj, "(= ") && strings.HasSuffix(cj, ")") {
+			parts := splitSexp(cj[3 : len(cj)-1])
+			if len(parts) == 2 {
+				if isAtom(parts[0]) {
+					if _, isNum := litInt(parts[0]); !isNum {
+						out[parts[0]] = parts[1]
+					}
+				}
+				if isAtom(parts[1]) {
+					if _, isNum := litInt(parts[1]); !isNum {
+						if _, dup := out[parts[1]]; !dup {
+							out[parts[1]] = parts[0]
+						}
+					}
+				}
+			}
+		}
+	}
 }
 
 func (fr *Frame) topFrame() *Frame {
@@ -345,6 +405,11 @@ func (fr *Frame) havocMod(mi ModItem, env *Env, st *State) {
 		}
 		for _, ref := range refs {
 			v := fr.freshVal(f.Type(), "mod_"+f.Name())
+			comps := flat(v)
+			for k := range comps {
+				key := heapKey(sn, f.Name(), k)
+				fr.havocLog = append(fr.havocLog, havocRec{key: key, ref: ref, fresh: comps[k], base: st.heap[key]})
+			}
 			fr.storeField(st, sn, fi, ref, v)
 		}
 	}
